@@ -238,3 +238,31 @@ Definition dft_small : dft_oracle := fun ortho shape x k =>
 
 Definition dom_small (shape : list nat) : Prop :=
   shape = [2%nat] \/ shape = [4%nat] \/ shape = [2%nat; 2%nat].
+
+(* ---------------------------------------------------------------- the mathematical DFT, general shape *)
+(* complex numbers as pairs of reals *)
+Definition cadd (a b : R * R) : R * R := (fst a + fst b, snd a + snd b).
+Definition cmul (a b : R * R) : R * R := (fst a * fst b - snd a * snd b, fst a * snd b + snd a * fst b).
+Definition cscal (c : R) (a : R * R) : R * R := (c * fst a, c * snd a).
+Definition cexp (t : R) : R * R := (cos t, sin t).                       (* exp(i t) *)
+Definition csum (l : list (R * R)) : R * R := fold_right cadd (0, 0) l.
+
+(* 2 pi k n / N *)
+Definition angle (N k n : nat) : R := 2 * PI * INR k * INR n / INR N.
+
+(* orthonormal n-d transform of a complex field as iterated 1-d transforms along the axes (first axis outermost):
+   X_k = prod_a N_a^(-1/2) * sum_n z_n exp(-2 pi i sum_a k_a n_a / N_a) *)
+Fixpoint dftc (shape : list nat) (z : index -> R * R) (k : index) : R * R :=
+  match shape, k with
+  | [], [] => z []
+  | N :: rest, k0 :: k' =>
+      cscal (/ sqrt (INR N))
+        (csum (map (fun n0 => cmul (cexp (- angle N k0 n0)) (dftc rest (fun n' => z (n0 :: n')) k')) (seq 0 N)))
+  | _, _ => (0, 0)
+  end.
+
+(* numpy.fft.fftn of a real field: norm="ortho" as above; otherwise ("backward") without the prefactor *)
+Definition dft_math : dft_oracle := fun ortho shape x k =>
+  cscal (if ortho then 1 else sqrt (INR (size_of shape))) (dftc shape (fun n => (x n, 0)) k).
+
+Definition dom_math (shape : list nat) : Prop := Forall (fun n => (0 < n)%nat) shape.
